@@ -124,10 +124,29 @@ def signature(case, ck, log, fault):
 
 
 def plan(tier, seed):
-    return F.std_plan(tier, seed, 2560, 30000)
+    return F.std_plan(tier, seed, 2560, 30000) + [{"probes": True, "seed": seed}]
+
+
+def run_probes(desc):
+    """Two machines in one process sharing a callback function in different flavours (plain vs
+    keyword-only functools.partial): each machine's binding depends on its own callable only."""
+    import random
+
+    from props import c07
+
+    rng = random.Random(desc["seed"] * 13 + 5)
+    counters, violations, sigs = {"partial_pair_checked": 0}, [], set()
+    for _ in range(60):
+        c07.run_partial_pair(rng, counters, violations, sigs, two_machines=True)
+    for v in violations:
+        v["rule"] = "C16.binding-of-other-machine"
+    return {"evaluations": counters["partial_pair_checked"], "signatures": sorted(sigs), "samples": [],
+            "counters": {"two_machine_partial_probes": counters["partial_pair_checked"]}, "violations": violations[:2]}
 
 
 def run_shard(desc):
+    if desc.get("probes"):
+        return run_probes(desc)
     return F.explore(desc, make_case, owns, signature, classify=classify, extra_check=extra_check)
 
 
